@@ -173,6 +173,16 @@ def run(ctx: Context) -> None:
                 sn.extend(cfg_node_of(g, loop.node, n, pm) if m is loop else first_step_nodes(repo, c, loop, m, g, pm))
             ok = bool(pn) and bool(sn) and all(any(p.id in dom.get(s.id, set()) and p.id != s.id for p in pn) for s in sn)
             ctx.add("R1", f"{c.qualname}::prune-before-spawn", ok, loop.loc(), "" if ok else "the spawn decision can be taken before dead workers were removed from the tracking table (the tracked count still includes them)")
+            # the statement that computes the tracked count (in the loop function itself) comes after the prune
+            counts = [x for x in walk_no_nested(loop.node) if isinstance(x, ast.Call) and call_name(x) == "len" and x.args and self_attr(x.args[0]) == table]
+            for cnt in counts:
+                cn = cfg_node_of(g, loop.node, cnt, pm)
+                okc = all(any(p.id in dom.get(n_.id, set()) and p.id != n_.id for p in pn) for n_ in cn)
+                # a count inside the prune region itself (e.g. logging how many are dead) is not the decision
+                in_prune = any(any(x is cnt for x in ast.walk(st)) for m2, pr in reach_prunes if m2 is loop for st in loop.node.body if any(y is pr for y in ast.walk(st)))
+                if in_prune:
+                    continue
+                ctx.add("R1", f"{c.qualname}::prune-before-count", okc, loop.loc(cnt), "" if okc else f"len(self.{table}) is read before dead workers are removed: the spawn decision uses a count that still includes them")
         # R2: capacity comparison
         found = False
         detail = "no comparison of the tracked count with a capacity attribute on the way to the spawn"
